@@ -121,7 +121,8 @@ Section ChainProofs.
          forallb is_state (chain_auth_list prov root curr) = true /\
          allowed curr (chain_auth_list prov root curr) = true) /\
       (v = VAllowed -> TableOk m2 /\
-         forall x a, mget m2 x = Some (Some a) -> mget m1 x = Some (Some a)).
+         forall x a, mget m2 x = Some (Some a) -> mget m1 x = Some (Some a)) /\
+      v <> VOutOfFuel.
   Proof.
     intros [HI Hr] Hnone Hfuel.
     assert (HF : Fresh prov true cres m1 (auth_ids curr)).
@@ -136,15 +137,15 @@ Section ChainProofs.
       change (res_list cres (auth_ids curr)) with (chain_auth_list prov root curr) in Hs.
       rewrite (stut_allowed0 allowed Hstut curr _ _ Hs).
       destruct (allowed curr (chain_auth_list prov root curr)) eqn:Ha.
-      + exists VAllowed, m2. split; auto. split; [tauto|]. intros _. split.
+      + exists VAllowed, m2. split; auto. split; [tauto|]. split; [|discriminate]. intros _. split.
         * split; auto. rewrite Hmono; auto. congruence.
         * intros x a Hx. destruct (Hprov x a Hx) as [H|(H1 & H2 & H3)]; auto.
           exfalso. destruct (Hnone x H1 H2) as [Hp _].
           unfold eff_prov, from_prov in H3. rewrite Hp in H3. discriminate.
-      + exists VNotAllowed, m2. split; auto. split; [|discriminate].
+      + exists VNotAllowed, m2. split; auto. split; [|split; discriminate].
         split; [discriminate|]. intros [_ H]. discriminate.
     - destruct G as (acc' & m2 & Hg). rewrite Hg. simpl.
-      exists VAddErr, m2. split; auto. split; [|discriminate].
+      exists VAddErr, m2. split; auto. split; [|split; discriminate].
       split; [discriminate|]. intros [H _]. discriminate.
   Qed.
 
@@ -252,7 +253,7 @@ Section ChainProofs.
           assert (Hcurr : Reach prov root curr) by (apply J2; now left).
           destruct (fetch_step m curr HT Herr) as (HT1 & Hnone & Hprov1).
           fold need in HT1, Hnone, Hprov1.
-          destruct (check_step gfuel _ curr HT1 Hnone (Hg curr Hcurr)) as (v & m2 & Hc & Hiff & Hpost).
+          destruct (check_step gfuel _ curr HT1 Hnone (Hg curr Hcurr)) as (v & m2 & Hc & Hiff & Hpost & Hnf).
           rewrite Hc. destruct v; try discriminate.
           destruct (proj1 Hiff eq_refl) as [Hst Hal]. destruct (Hpost eq_refl) as [HT2 Hprov2].
           apply IH.
@@ -321,7 +322,7 @@ Section ChainProofs.
         rewrite Herr.
         destruct (fetch_step m curr HT Herr) as (HT1 & Hnone & Hprov1).
         fold need in HT1, Hnone, Hprov1.
-        destruct (check_step gfuel _ curr HT1 Hnone (Hg curr Hcurr)) as (v & m2 & Hc & Hiff & Hpost).
+        destruct (check_step gfuel _ curr HT1 Hnone (Hg curr Hcurr)) as (v & m2 & Hc & Hiff & Hpost & Hnf).
         rewrite Hc. assert (Hv : v = VAllowed) by (apply Hiff; auto). subst v.
         destruct (Hpost eq_refl) as [HT2 _].
         apply IH; auto.
@@ -329,5 +330,94 @@ Section ChainProofs.
         + apply in_rev in Hc'. apply (fetched_reach m curr c HT Hcurr). exact Hc'.
         + apply J2. now right.
     Qed.
+
+    (* ---------------- fuel adequacy ----------------
+       univ: any finite list containing every reachable event. Each iteration either drops an
+       already verified stack entry or verifies a new event, pushing at most one entry per auth
+       event ID of it. *)
+    Variable univ : list event.
+    Hypothesis Huniv : forall c, Reach prov root c -> In c univ.
+
+    Definition weight (verified : list N) : nat :=
+      fold_right (fun c n => (if mem_N (eid c) verified then O else S (length (auth_ids c))) + n)%nat O univ.
+
+    Lemma weight_mono_gen (l : list event) verified x :
+      (fold_right (fun c n => (if mem_N (eid c) (x :: verified) then O else S (length (auth_ids c))) + n) O l
+       <= fold_right (fun c n => (if mem_N (eid c) verified then O else S (length (auth_ids c))) + n) O l)%nat.
+    Proof.
+      induction l as [|c l IH]; simpl in *; auto.
+      destruct (eid c =? x); simpl; destruct (mem_N (eid c) verified); simpl; lia.
+    Qed.
+
+    Lemma weight_drop_gen (l : list event) verified c :
+      In c l -> mem_N (eid c) verified = false ->
+      (fold_right (fun c' n => (if mem_N (eid c') (eid c :: verified) then O else S (length (auth_ids c'))) + n) O l
+         + S (length (auth_ids c))
+       <= fold_right (fun c' n => (if mem_N (eid c') verified then O else S (length (auth_ids c'))) + n) O l)%nat.
+    Proof.
+      intros Hin Hm. induction l as [|c' l IH]; [destruct Hin|].
+      destruct Hin as [->|Hin].
+      - pose proof (weight_mono_gen l verified (eid c)) as Hmono.
+        simpl in *. rewrite N.eqb_refl, Hm. simpl. lia.
+      - specialize (IH Hin). simpl in *.
+        destruct (eid c' =? eid c); simpl; destruct (mem_N (eid c') verified); simpl; lia.
+    Qed.
+
+    Lemma length_fetched need : (length (fetched need) <= length need)%nat.
+    Proof.
+      unfold fetched. induction need as [|x r IH]; simpl; auto.
+      rewrite app_length. destruct (prov x); simpl; lia.
+    Qed.
+
+    Lemma length_filter_c {A} (p : A -> bool) l : (length (filter p l) <= length l)%nat.
+    Proof. induction l as [|a l IH]; simpl; auto. destruct (p a); simpl; lia. Qed.
+
+    Theorem chain_fuel_ok : forall fuel stack m verified,
+      TableOk m -> (forall c, In c stack -> Reach prov root c) ->
+      (length stack + weight verified < fuel)%nat ->
+      fst (chain_loop unit allowed (pcall_of prov) fuel gfuel stack m verified tt) <> ChainOutOfFuel.
+    Proof.
+      induction fuel as [|f IH]; intros stack m verified HT J2 Hlt; [lia|]. simpl.
+      destruct stack as [|curr rest]; [discriminate|].
+      simpl in Hlt.
+      destruct (mem_N (eid curr) verified) eqn:Hv.
+      - apply IH; auto; [intros c Hc; apply J2; now right | lia].
+      - rewrite fetch_eq.
+        set (need := filter (needs m) (auth_ids curr)).
+        assert (Hcurr : Reach prov root curr) by (apply J2; now left).
+        destruct (existsb (fun x => is_err (prov x)) need) eqn:Herr; [discriminate|].
+        destruct (fetch_step m curr HT Herr) as (HT1 & Hnone & Hprov1).
+        fold need in HT1, Hnone, Hprov1.
+        destruct (check_step gfuel _ curr HT1 Hnone (Hg curr Hcurr)) as (v & m2 & Hc & Hiff & Hpost & Hnf).
+        rewrite Hc. destruct v; try discriminate; [|congruence].
+        destruct (Hpost eq_refl) as [HT2 _].
+        apply IH; auto.
+        + intros c Hc'. apply in_app_or in Hc'. destruct Hc' as [Hc'|Hc'].
+          * apply in_rev in Hc'. apply (fetched_reach m curr c HT Hcurr). exact Hc'.
+          * apply J2. now right.
+        + rewrite app_length, rev_length.
+          pose proof (length_fetched need). pose proof (length_filter_c (needs m) (auth_ids curr)).
+          fold need in H0.
+          pose proof (weight_drop_gen univ verified curr (Huniv curr Hcurr) Hv).
+          unfold weight in *. lia.
+    Qed.
   End WithFuel.
+
+  (* fuel computed from a finite universe of events *)
+  Definition gfuel_of (univ : list event) : nat :=
+    S (2 * fold_right (fun c n => Nat.max (length (auth_ids c)) n) O univ).
+  Definition fuel_of (univ : list event) : nat :=
+    S (S (fold_right (fun c n => S (length (auth_ids c)) + n)%nat O univ)).
+
+  Lemma gfuel_of_ok univ c : In c univ -> (2 * length (auth_ids c) < gfuel_of univ)%nat.
+  Proof.
+    unfold gfuel_of. induction univ as [|c' l IH]; [intros []|].
+    intros [->|Hin]; simpl fold_right.
+    - lia.
+    - specialize (IH Hin). lia.
+  Qed.
+
+  Lemma weight_nil univ :
+    weight univ [] = fold_right (fun c n => S (length (auth_ids c)) + n)%nat O univ.
+  Proof. unfold weight. induction univ as [|c l IH]; simpl; auto. Qed.
 End ChainProofs.
